@@ -204,8 +204,9 @@ def run(check, an: Analysis):
             if is_call_to(event, 'schedule'):
                 n_sched += 1
                 call = event.node
-                args = [ast.unparse(a) for a in call.args]
-                kws = {kw.arg: ast.unparse(kw.value) for kw in call.keywords}
+                args = [rules.value_text(path, index, a) for a in call.args]
+                kws = {kw.arg: rules.value_text(path, index, kw.value)
+                       for kw in call.keywords}
                 signal = kws.get('signal', args[1] if len(args) > 1 else None)
                 ok = args[:1] == ['self._activity'] and signal == 'self._cancel_self' and \
                     'delay' not in kws and 'at' not in kws and \
